@@ -177,7 +177,7 @@ func compile(sp *progSpec, compiled bool) (*starlark.Program, error) {
 
 func armProgram(c *driver.Ctx, rl *raceLog) {
 	nprogs := c.Pick(24, 24*40)
-	callsPer := 24
+	callsPer := 48
 	for pi := 0; pi < nprogs; pi++ {
 		for _, compiled := range []bool{false, true} {
 			if !c.Take() {
